@@ -123,7 +123,7 @@ def r20_1(chk, sb, ld):
     chk.ob("R20.1", SB, "quasirandom_sobol_batch", "single and batch scale the integers identically", len(same_scale) == 1, found=sorted(same_scale))
     # Korobov
     k1 = ld.ev("quasirandom_kgf", opaque={"a"})
-    k2 = ld.ev("quasirandom_kgf_batch", opaque={"a"})
+    k2 = ld.ev("quasirandom_kgf_batch", opaque={"a", "N"})
     chk.saw(LD, "quasirandom_kgf")
     chk.saw(LD, "quasirandom_kgf_batch")
     r1, r2 = k1.returns[-1].value, k2.returns[-1].value
@@ -135,10 +135,16 @@ def r20_1(chk, sb, ld):
     f2 = strip_objs(a2[2].key()) if ok2 else ""
     A = P.atom(("local", "a", 0))
     chk.ob("R20.1", LD, "quasirandom_kgf", "single Korobov point is (1/2 + a (N+1)) % 1", ok1 and a1[2] == P.const(1) / 2 + A * (P.name("N") + 1), found=str(r1))
-    okb = ok2 and "numpy.newaxis" in f2 and f2.startswith("1/2 + ") and "$a[" in f2
+    NONE = P.atom(("const", None))
+    full = P.atom(("slice", NONE, NONE, NONE))
+    nax = P.name("numpy.newaxis")
+    Nb = P.atom(("local", "N", 0))
+    want = P.const(1) / 2 + P.atom(("sub", A, (nax, full))) * (P.atom(("sub", Nb, (full, nax))) + 1)
+    okb = ok2 and a2[2] == want
+    ndef = [v for k, v in k2.defs.items() if k[1] == "N"]
     chk.ob("R20.1", LD, "quasirandom_kgf_batch", "the batch applies the same formula with N = arange(L, U+1) broadcast against a",
-           okb and any(e.kind == "assign" and e.name == "N" and strip_objs(obj_init(e.value).key()).startswith("numpy.arange(L, 1 + U") for e in k2.events),
-           found=str(r2)[:160])
+           okb and bool(ndef) and strip_objs(obj_init(ndef[0]).key()).startswith("numpy.arange(L, 1 + U"),
+           expected=str(want), found=str(r2)[:160])
     al1 = [e for e in k1.events if e.kind == "call" and call_name(e.value.as_atom() or ()) == "alpha"]
     al2 = [e for e in k2.events if e.kind == "call" and call_name(e.value.as_atom() or ()) == "alpha"]
     chk.ob("R20.1", LD, "quasirandom_kgf_batch", "both use the same lattice vector alpha(D)", len(al1) == 1 and len(al2) == 1)
